@@ -82,6 +82,32 @@ func (w *World) FlatRoot(fn *ssa.Function) *FCtx {
 	return &FCtx{Fn: fn, kids: map[ssa.CallInstruction]*FCtx{}}
 }
 
+// FlatRootClosure is the flat root of a closure literal's body run by code outside the analysed set (a callback handed
+// to a library): its captured variables that are assigned exactly once where they are declared stand for that value, in
+// the terms of the function that creates the closure.
+func (w *World) FlatRootClosure(mc *ssa.MakeClosure) *FCtx {
+	g, ok := mc.Fn.(*ssa.Function)
+	if !ok {
+		return nil
+	}
+	root := w.FlatRoot(g)
+	params := map[string]*Expr{}
+	if len(g.FreeVars) == len(mc.Bindings) {
+		for i, fv := range g.FreeVars {
+			if v := singleAssignment(mc.Bindings[i]); v != nil {
+				params["free:"+fv.Name()] = w.ResolveCaptured(w.ExprOf(v))
+			}
+		}
+	}
+	root.en = &env{params: params, closure: mc}
+	return root
+}
+
+// HoldsIn: in context ctx, "v == pol" implies a predicate accepted by m (helpers looked into up to depth calls).
+func (w *World) HoldsIn(ctx *FCtx, v ssa.Value, pol bool, m Matcher, depth int) bool {
+	return w.holds(ctx.Fn, v, pol, m, ctx.en, depth, map[holdKey]bool{})
+}
+
 func (w *World) expandable(ctx *FCtx, call ssa.CallInstruction) *ssa.Function {
 	if _, ok := call.(*ssa.Call); !ok {
 		return nil
@@ -135,7 +161,10 @@ type FlatCut struct {
 	Edges    func(ctx *FCtx) map[[2]int]bool
 	Barrier  func(ctx *FCtx, in ssa.Instruction) bool
 	NoExpand func(h *ssa.Function) bool // callees to step over
-	cache    map[*FCtx]map[[2]int]bool
+	// Mark: call instructions whose execution the walk remembers (as part of the state, so that occurrences reached
+	// with and without passing them are told apart); asked with FPos.Passed
+	Mark  func(ctx *FCtx, in ssa.Instruction) bool
+	cache map[*FCtx]map[[2]int]bool
 }
 
 func (w *World) flatEdges(cut *FlatCut, ctx *FCtx) map[[2]int]bool {
@@ -256,19 +285,31 @@ type fkey struct {
 // factValue follows v through the parameters of the expanded contexts to the call (or tuple extract) whose
 // return the facts may know about.
 func factValue(ctx *FCtx, v ssa.Value) (ssa.CallInstruction, int, bool) {
-	for depth := 0; depth < 8; depth++ {
+	// pend: a field still to be projected out of the record v stands for (facts about a field of a record result are
+	// stored under result index + 100*(field+1))
+	pend := -1
+	withPend := func(idx int) int {
+		if pend >= 0 {
+			return idx + 100*(pend+1)
+		}
+		return idx
+	}
+	for depth := 0; depth < 10; depth++ {
 		switch x := v.(type) {
 		case *ssa.Call:
-			return x, 0, true
+			return x, withPend(0), true
 		case *ssa.Extract:
 			if c, ok := x.Tuple.(*ssa.Call); ok {
-				return c, x.Index, true
+				return c, withPend(x.Index), true
 			}
 			return nil, 0, false
 		case *ssa.ChangeType:
 			v = x.X
 			continue
 		case *ssa.Field:
+			if pend >= 0 {
+				return nil, 0, false
+			}
 			// a verdict carried in a bundle struct: the field of a struct-valued parameter, as set where the struct was built
 			if src := bundleField(x.X, x.Field); src != nil {
 				v = src
@@ -280,17 +321,43 @@ func factValue(ctx *FCtx, v ssa.Value) (ssa.CallInstruction, int, bool) {
 						v, ctx = src, ctx2
 						continue
 					}
+					// the record was handed in as it came back from a call
+					v, ctx, pend = arg, ctx2, x.Field
+					continue
 				}
+				return nil, 0, false
 			}
-			return nil, 0, false
+			v, pend = x.X, x.Field
+			continue
 		case *ssa.UnOp:
+			if al, ok := x.X.(*ssa.Alloc); ok && pend >= 0 {
+				// the whole record loaded from a local: a parameter spilled there, a record built field by field, or a
+				// record assigned once as it came back from a call
+				if p := spilledParam(al); p != nil {
+					v = p
+					continue
+				}
+				if src := bundleField(x, pend); src != nil {
+					v, pend = src, -1
+					continue
+				}
+				if src := RecordSource(al, pend); src != nil {
+					v = src
+					continue
+				}
+				return nil, 0, false
+			}
 			fa, ok := x.X.(*ssa.FieldAddr)
-			if !ok {
+			if !ok || pend >= 0 {
 				return nil, 0, false
 			}
 			if al, ok := fa.X.(*ssa.Alloc); ok {
 				// a local struct: the single store to this field
 				if src := singleFieldStore(al, fa.Field); src != nil {
+					v = src
+					continue
+				}
+				if src := fieldValueAt(al, fa.Field, x); src != nil {
 					v = src
 					continue
 				}
@@ -301,7 +368,14 @@ func factValue(ctx *FCtx, v ssa.Value) (ssa.CallInstruction, int, bool) {
 							v, ctx = src, ctx2
 							continue
 						}
+						v, ctx, pend = arg, ctx2, fa.Field
+						continue
 					}
+				}
+				// ... or a record assigned once as a whole
+				if src := RecordSource(al, fa.Field); src != nil {
+					v, pend = src, fa.Field
+					continue
 				}
 			}
 			return nil, 0, false
@@ -332,6 +406,55 @@ func factValue(ctx *FCtx, v ssa.Value) (ssa.CallInstruction, int, bool) {
 		return nil, 0, false
 	}
 	return nil, 0, false
+}
+
+// recordFacts: what return r of the expanded call tells about the bool and enumeration fields of a record result (the
+// returned local): the constant the one definition reaching the return gives the field, or its zero value.
+func recordFacts(facts *ffact, call ssa.CallInstruction, ri int, rv ssa.Value, r *ssa.Return) *ffact {
+	u, ok := rv.(*ssa.UnOp)
+	if !ok {
+		return facts
+	}
+	al, ok := u.X.(*ssa.Alloc)
+	if !ok || !localRecord(al) {
+		return facts
+	}
+	st, ok := deref(al.Type()).Underlying().(*types.Struct)
+	if !ok {
+		return facts
+	}
+	for i := 0; i < st.NumFields(); i++ {
+		ft := st.Field(i).Type()
+		isBool := ft.String() == "bool"
+		_, named := ft.(*types.Named)
+		bt, isBasic := ft.Underlying().(*types.Basic)
+		isEnum := named && isBasic && bt.Info()&types.IsInteger != 0
+		if !isBool && !isEnum {
+			continue
+		}
+		v, zero, ok := fieldAt(al, i, u, 0)
+		if !ok {
+			continue
+		}
+		if zero {
+			if isBool {
+				facts = withFact(facts, call, ri+100*(i+1), false)
+			} else {
+				facts = withFactC(facts, call, ri+100*(i+1), false, "0")
+			}
+			continue
+		}
+		cst, isC := v.(*ssa.Const)
+		if !isC || cst.Value == nil {
+			continue
+		}
+		if isBool {
+			facts = withFact(facts, call, ri+100*(i+1), constBool(cst))
+		} else if cst.Value.Kind() == constant.Int {
+			facts = withFactC(facts, call, ri+100*(i+1), false, cst.Value.ExactString())
+		}
+	}
+	return facts
 }
 
 func feasibleSucc(ctx *FCtx, b *ssa.BasicBlock, facts *ffact) (onlyTrue, onlyFalse bool) {
@@ -409,6 +532,13 @@ func feasibleSucc(ctx *FCtx, b *ssa.BasicBlock, facts *ffact) (onlyTrue, onlyFal
 				return decide(v)
 			}
 		}
+	case *ssa.Field, *ssa.UnOp:
+		// a verdict carried in a record (`checks.fees`, `plan.prune`)
+		if call, idx, ok := factValue(ctx, x); ok && x.Type().String() == "bool" {
+			if v, ok := facts.lookup(call, idx); ok {
+				return decide(v)
+			}
+		}
 	}
 	return false, false
 }
@@ -453,6 +583,11 @@ func (w *World) FlatWalk(root *FCtx, from *FPos, cut *FlatCut, visit func(FPos) 
 				stopped = true
 				break
 			}
+			if cut.Mark != nil {
+				if ci, ok := in.(ssa.CallInstruction); ok && cut.Mark(s.ctx, in) {
+					s.facts = withFact(s.facts, ci, markIdx, true)
+				}
+			}
 			switch x := in.(type) {
 			case *ssa.Call:
 				if h := w.expandable(s.ctx, x); h != nil && (cut.NoExpand == nil || !cut.NoExpand(h)) {
@@ -471,6 +606,12 @@ func (w *World) FlatWalk(root *FCtx, from *FPos, cut *FlatCut, visit func(FPos) 
 					if callerFacts != nil {
 						callerFacts = callerFacts.next
 					}
+					// what was marked inside the callee stays marked
+					for y := s.facts; y != nil && y.call != nil; y = y.next {
+						if y.idx == markIdx {
+							callerFacts = withFact(callerFacts, y.call, markIdx, true)
+						}
+					}
 					g := s.ctx.Fn
 					if ei := ErrIndex(g); ei >= 0 && ei < len(x.Results) {
 						if w.ProvablyNonNil(g, x, x.Results[ei]) {
@@ -480,6 +621,7 @@ func (w *World) FlatWalk(root *FCtx, from *FPos, cut *FlatCut, visit func(FPos) 
 						}
 					}
 					for ri, rv := range x.Results {
+						callerFacts = recordFacts(callerFacts, s.ctx.Call, ri, rv, x)
 						if cst, ok := rv.(*ssa.Const); ok && cst.Value != nil && rv.Type().String() == "bool" {
 							callerFacts = withFact(callerFacts, s.ctx.Call, ri, constBool(cst))
 						} else if ok && cst.Value != nil && cst.Value.Kind() == constant.Int {
@@ -696,14 +838,149 @@ func spilledParam(v ssa.Value) *ssa.Parameter {
 
 // bundleField: v is (a load of) a local struct built field by field; returns what was stored into field i (when stored once).
 func bundleField(v ssa.Value, i int) ssa.Value {
+	var use ssa.Instruction
 	if u, ok := v.(*ssa.UnOp); ok {
 		v = u.X
+		use = u
 	}
 	al, ok := v.(*ssa.Alloc)
 	if !ok {
 		return nil
 	}
-	return singleFieldStore(al, i)
+	if src := singleFieldStore(al, i); src != nil {
+		// (the one store must lie on every path to the use: otherwise the field may still be empty there)
+		if use == nil || use.Block() == nil || storeDominates(al, i, use) {
+			return src
+		}
+		return nil
+	}
+	if use != nil {
+		return fieldValueAt(al, i, use)
+	}
+	return nil
+}
+
+// storeDominates: the single store to field i of al lies on every path to use.
+func storeDominates(al *ssa.Alloc, i int, use ssa.Instruction) bool {
+	st := theFieldStore(al, i)
+	if st == nil {
+		return false
+	}
+	if st.Block() == use.Block() {
+		return InstrIndex(st) < InstrIndex(use)
+	}
+	return st.Block().Dominates(use.Block())
+}
+
+func theFieldStore(al *ssa.Alloc, i int) *ssa.Store {
+	var out *ssa.Store
+	n := 0
+	if al.Referrers() == nil {
+		return nil
+	}
+	for _, r := range *al.Referrers() {
+		if x, ok := r.(*ssa.FieldAddr); ok && x.Field == i && x.Referrers() != nil {
+			for _, rr := range *x.Referrers() {
+				if st, ok := rr.(*ssa.Store); ok && st.Addr == ssa.Value(x) {
+					n++
+					out = st
+				}
+			}
+		}
+	}
+	if n == 1 {
+		return out
+	}
+	return nil
+}
+
+// fieldValueAt: the value field i of the local record al has at `use`, when exactly one definition of it reaches use
+// (see fieldAt); nil when it is still empty there or cannot be told.
+func fieldValueAt(al *ssa.Alloc, i int, use ssa.Instruction) ssa.Value {
+	v, zero, ok := fieldAt(al, i, use, 0)
+	if !ok || zero {
+		return nil
+	}
+	return v
+}
+
+// fieldDef is one definition of a record field: a store to the field, or an assignment of the whole record (whose
+// component for the field is val; zero: the field is left empty by it; opaque: not known).
+type fieldDef struct {
+	at     ssa.Instruction
+	val    ssa.Value
+	zero   bool
+	opaque bool
+}
+
+// fieldAt: reaching definitions of field i of the local record al at `use` (an instruction of al's function): the stores
+// to the field and the assignments of the whole record (a composite literal built in a temporary and copied in, a zero
+// value, anything else being opaque) are its definitions; the value at use is known when exactly one of them — or only
+// the declaration's zero value — reaches use without being overwritten on the way.
+func fieldAt(al *ssa.Alloc, i int, use ssa.Instruction, depth int) (val ssa.Value, zero bool, ok bool) {
+	if depth > 3 || !localRecord(al) || use == nil || use.Block() == nil || use.Parent() != al.Parent() {
+		return nil, false, false
+	}
+	var defs []fieldDef
+	for _, r := range *al.Referrers() {
+		switch x := r.(type) {
+		case *ssa.FieldAddr:
+			if x.Field != i || x.Referrers() == nil {
+				continue
+			}
+			for _, rr := range *x.Referrers() {
+				if st, ok := rr.(*ssa.Store); ok && st.Addr == ssa.Value(x) {
+					defs = append(defs, fieldDef{at: st, val: st.Val})
+				}
+			}
+		case *ssa.Store:
+			if x.Addr != ssa.Value(al) {
+				continue
+			}
+			d := fieldDef{at: x, opaque: true}
+			if c, isC := x.Val.(*ssa.Const); isC && c.Value == nil {
+				d = fieldDef{at: x, zero: true}
+			} else if u, isLoad := x.Val.(*ssa.UnOp); isLoad {
+				if src, isAl := u.X.(*ssa.Alloc); isAl && src != al {
+					if v, z, ok := fieldAt(src, i, u, depth+1); ok {
+						d = fieldDef{at: x, val: v, zero: z}
+					}
+				}
+			}
+			defs = append(defs, d)
+		}
+	}
+	fn := al.Parent()
+	isDef := func(except ssa.Instruction) func(ssa.Instruction) bool {
+		return func(in ssa.Instruction) bool {
+			if in == except {
+				return false
+			}
+			for _, d := range defs {
+				if d.at == in {
+					return true
+				}
+			}
+			return false
+		}
+	}
+	var reaching []fieldDef
+	for _, d := range defs {
+		if ReachesFrom(fn, d.at.Block(), InstrIndex(d.at)+1, use, Cut{Barrier: isDef(nil)}) {
+			reaching = append(reaching, d)
+		}
+	}
+	// the declaration itself (zero value): a parameter spilled into the local is a definition by the entry store, so a
+	// local reached from the entry without any definition is empty
+	fromEntry := Reaches(fn, use, Cut{Barrier: isDef(nil)})
+	// (the allocation may sit in a loop: it is re-zeroed each time it executes — treated like the entry)
+	switch {
+	case fromEntry && len(reaching) == 0:
+		return nil, true, true
+	case !fromEntry && len(reaching) == 1 && !reaching[0].opaque:
+		return reaching[0].val, reaching[0].zero, true
+	}
+	return nil, false, false
 }
 
 func singleFieldStore(al *ssa.Alloc, i int) ssa.Value {
@@ -746,4 +1023,128 @@ func (c *FCtx) Child(call ssa.CallInstruction) *FCtx { return c.kids[call] }
 // context's parameters expressed in the root's terms.
 func (w *World) EstablishedEdgesIn(ctx *FCtx, m Matcher, depth int) map[[2]int]bool {
 	return w.establishedEdges(ctx.Fn, m, ctx.en, depth, map[holdKey]bool{})
+}
+
+// ConstAt: the exact value this occurrence's facts know for v — an enumeration constant returned by an expanded call on
+// the way here (followed through parameters and bundle structs).
+func (p FPos) ConstAt(v ssa.Value) (string, bool) {
+	if call, idx, ok := factValue(p.Ctx, v); ok {
+		return p.facts.lookupConst(call, idx)
+	}
+	return "", false
+}
+
+// ConsistentReturn: can the call that created ctx have come back through return r, given what this occurrence's facts say
+// about that call's results (a bool tested and found true, an error found nil, an enumeration constant)?
+func (p FPos) ConsistentReturn(w *World, ctx *FCtx, r *ssa.Return) bool {
+	if ctx == nil || ctx.Call == nil {
+		return true
+	}
+	g := ctx.Fn
+	ei := ErrIndex(g)
+	for j, rv := range r.Results {
+		if j == ei {
+			if nonNil, known := p.facts.lookup(ctx.Call, j); known {
+				if nonNil && isNilConst(rv) || !nonNil && w.ProvablyNonNil(g, r, rv) {
+					return false
+				}
+			}
+			continue
+		}
+		for y := recordFacts(nil, ctx.Call, j, rv, r); y != nil; y = y.next {
+			if y.cval != "" {
+				if cv, known := p.facts.lookupConst(y.call, y.idx); known && cv != y.cval {
+					return false
+				}
+			} else if val, known := p.facts.lookup(y.call, y.idx); known && val != y.val {
+				return false
+			}
+		}
+		cst, isC := rv.(*ssa.Const)
+		if !isC || cst.Value == nil {
+			continue
+		}
+		if rv.Type().String() == "bool" {
+			if val, known := p.facts.lookup(ctx.Call, j); known && val != constBool(cst) {
+				return false
+			}
+		} else if cst.Value.Kind() == constant.Int {
+			if cv, known := p.facts.lookupConst(ctx.Call, j); known && cv != cst.Value.ExactString() {
+				return false
+			}
+		}
+	}
+	return true
+}
+
+// RecordSource: the local record al is assigned as a whole exactly once (`req, ok := build(tx)`), its address never
+// leaves the function and field i is never set separately: returns the value it was assigned (else nil).
+func RecordSource(al *ssa.Alloc, i int) ssa.Value {
+	if !localRecord(al) {
+		return nil
+	}
+	var whole ssa.Value
+	n := 0
+	for _, r := range *al.Referrers() {
+		switch x := r.(type) {
+		case *ssa.Store:
+			if x.Addr == ssa.Value(al) {
+				n++
+				whole = x.Val
+			}
+		case *ssa.FieldAddr:
+			if x.Field != i || x.Referrers() == nil {
+				continue
+			}
+			for _, rr := range *x.Referrers() {
+				if st, ok := rr.(*ssa.Store); ok && st.Addr == ssa.Value(x) {
+					return nil
+				}
+			}
+		}
+	}
+	if n == 1 {
+		return whole
+	}
+	return nil
+}
+
+const markIdx = 99
+
+// Passed: on the way to this occurrence the walk executed the marked call instruction (FlatCut.Mark).
+func (p FPos) Passed(call ssa.Instruction) bool {
+	ci, ok := call.(ssa.CallInstruction)
+	if !ok {
+		return false
+	}
+	v, known := p.facts.lookup(ci, markIdx)
+	return known && v
+}
+
+// PassedAny: some marked instruction accepted by is was executed on the way here.
+func (p FPos) PassedAny(is func(ssa.Instruction) bool) bool {
+	for x := p.facts; x != nil; x = x.next {
+		if x.call != nil && x.idx == markIdx && is(x.call) {
+			return true
+		}
+	}
+	return false
+}
+
+// FieldValueAt: the value field i of the local record al has at `use` (nil when empty there or not known): see fieldAt.
+func FieldValueAt(al *ssa.Alloc, i int, use ssa.Instruction) ssa.Value {
+	return fieldValueAt(al, i, use)
+}
+
+// FactsString renders the facts of the occurrence (debugging aid).
+func (p FPos) FactsString() string {
+	out := ""
+	for x := p.facts; x != nil; x = x.next {
+		if x.call == nil {
+			out += "^ "
+			continue
+		}
+		out += fmt.Sprintf("[%s idx=%d val=%v c=%s] ", x.call.String(), x.idx, x.val, x.cval)
+	}
+	return out
 }
